@@ -105,7 +105,7 @@ impl Obs {
             if a.kids != b.kids || a.probes.iter().zip(b.probes.iter()).any(|(x, y)| x != y) {
                 return Some("edges");
             }
-            if a.vprint.contains('Δ') != b.vprint.contains('Δ') {
+            if !a.vprint.is_empty() && !b.vprint.is_empty() && a.vprint.contains('Δ') != b.vprint.contains('Δ') {
                 return Some("data");
             }
         }
@@ -130,7 +130,7 @@ impl Obs {
             if a.probes.iter().zip(b.probes.iter()).any(|(x, y)| x != y) {
                 return Some(format!("kid(ν{},·) {:?} vs {:?}", a.v, a.probes, b.probes));
             }
-            if a.vprint != b.vprint {
+            if a.vprint != b.vprint && !a.vprint.is_empty() && !b.vprint.is_empty() {
                 return Some(format!("v_print(ν{}) {:?} vs {:?}", a.v, a.vprint, b.vprint));
             }
             if a.inspect != b.inspect {
@@ -150,13 +150,15 @@ pub fn observe<const N: usize>(g: &Sodg<N>, probes: &[PLabel], deep: bool) -> Re
         let keys = g.keys();
         let mut verts = Vec::with_capacity(keys.len());
         let do_inspect = deep && keys.len() <= 40;
+        // on large graphs the per-vertex text is produced on demand only (see run_op's add clause)
+        let do_vprint = deep || keys.len() <= 48;
         for &v in &keys {
             let kids: Vec<(PLabel, usize)> = g
                 .kids(v)
                 .map(|(l, t)| (PLabel::from_label(l), *t))
                 .collect();
             let pr = probes.iter().map(|l| g.kid(v, l.to_label())).collect();
-            let vprint = g.v_print(v).unwrap_or_else(|e| format!("ERR {e}"));
+            let vprint = if do_vprint { g.v_print(v).unwrap_or_else(|e| format!("ERR {e}")) } else { String::new() };
             let inspect = if do_inspect {
                 g.inspect(v).unwrap_or_else(|e| format!("ERR {e}"))
             } else {
